@@ -1,145 +1,128 @@
 (* C14 — LQR returns the feasible global minimiser of the LQ problem; MPC agrees with it.
    Statements only; proofs in Proofs/LQR.v; the model (Model/LQR.v) is the scalar instance
-   (state and input dimension 1, one batch item) of lqr.py / mpc.py / runsys AS CODED, with the
-   system's time counter of Model/Dynamics.v.
+   (state and input dimension 1, one batch item) of lqr.py / mpc.py / runsys AS CODED after the two
+   C14 `fix:` commits (system.reset() before the nominal roll-out and before the forward pass;
+   squeeze(-2) only for NLS Jacobians), with the system's time counter of Model/Dynamics.v.
 
    Notation of the statements:
      lqr_solve s dt prob x0 un tm = Some (xs, us, c, tm')   one LQR.forward(x0, dt, un) on the system
          object s whose counter is tm: states, inputs, cost, counter afterwards (None: it raises);
      traj s t x us        states visited by calling the system from x at time t with inputs us;
      Jcost s t x prob us  sum_t 1/2 tau_t^T Q_t tau_t + p_t^T tau_t along that trajectory;
-     fwd_start k tm T     the time at which the forward pass runs: 0 on an LTV object when T >= 2
-                          (the last set_refpoint), otherwise tm + T - 1 (after the nominal roll-out);
-     coef_ok s tm T       the coefficients the object shows at times tm .. tm+T-1 are those of times
-                          0 .. T-1 (LTV: e.g. a fresh / reset object), or the system is time-invariant;
+     sys_ok s             the object is an LTV object or has constant coefficients (LTI);
      pd st                Q_t symmetric positive definite.
    Partial (suffix _partial): state / input dimension 1 and dt = 1 only; arbitrary dimensions are
-   covered by the correspondence check against the property's own oracle, not by a theorem. *)
+   covered by the correspondence check against the property's own oracle, not by a theorem.
+   The `_old_refuted` theorems are about the code BEFORE the fix commits (Model/LQR.v:
+   lqr_solve_old, mpc_forward_old, lqr_shape_raises_old); their witnesses are regression cases of
+   the check. *)
 From Coq Require Import ZArith QArith List Bool Reals.
 Import ListNotations.
 From PV Require Import Base.Num Model.Dynamics Model.Controller Model.LQR Proofs.LQR.
 Close Scope Q_scope.
 
 (* feasibility, for every history (any number type, any dt, any nominal trajectory, any counter):
-   x_0 = x_init and x_{t+1} = system(x_t, u_t), the t-th call being made at time fwd_start + t *)
+   x_0 = x_init and x_{t+1} = system(x_t, u_t), the t-th call being made at time t *)
 Theorem C14_lqr_feasible : forall (F : Type) (NF : Num F) (s : ssys (F:=F)) dt prob x0 un tm xs us c tm',
   lqr_solve s dt prob x0 un tm = Some (xs, us, c, tm') ->
-  length us = length prob /\ xs = x0 :: traj s (fwd_start (sk s) tm (length prob)) x0 us.
-Proof. intros F NF s dt prob x0 un tm xs us c tm' H. destruct (lqr_structure _ _ _ _ _ _ _ _ _ _ H) as (A & B & _). now split. Qed.
+  length us = length prob /\ xs = x0 :: traj s 0 x0 us.
+Proof. intros F NF. exact lqr_feasible. Qed.
 
-(* system time after a solve: T calls after the start of the forward pass
-   (LTI: tm + 2T - 1; LTV: T when T >= 2, tm + 1 when T = 1; T = 0: unchanged) *)
+(* system time after a solve: the horizon T, whatever it was before *)
 Theorem C14_lqr_time_bookkeeping : forall (F : Type) (NF : Num F) (s : ssys (F:=F)) dt prob x0 un tm xs us c tm',
-  lqr_solve s dt prob x0 un tm = Some (xs, us, c, tm') -> tm' = lqr_time (sk s) tm (length prob).
-Proof. intros F NF s dt prob x0 un tm xs us c tm' H. exact (proj2 (proj2 (lqr_structure _ _ _ _ _ _ _ _ _ _ H))). Qed.
+  lqr_solve s dt prob x0 un tm = Some (xs, us, c, tm') -> tm' = Z.of_nat (length prob).
+Proof. intros F NF. exact lqr_time_bookkeeping. Qed.
 
-(* the reported cost is the sum of the stage costs along the returned trajectory, for every history *)
+(* the reported cost is the sum of the stage costs along the returned trajectory *)
 Theorem C14_lqr_cost_is_sum : forall (s : ssys (F:=R)) dt prob x0 un tm xs us c tm',
-  lqr_solve s dt prob x0 un tm = Some (xs, us, c, tm') ->
-  c = Jcost s (fwd_start (sk s) tm (length prob)) x0 prob us.
+  lqr_solve s dt prob x0 un tm = Some (xs, us, c, tm') -> c = Jcost s 0 x0 prob us.
 Proof. exact lqr_cost_is_sum. Qed.
 
-(* optimality: ANY horizon, any A_t, B_t, c1_t, PD Q_t, any p_t, any nominal input trajectory; the
-   returned trajectory is the fresh-object trajectory of the returned inputs, the cost is its cost,
-   and no input sequence has a lower cost *)
+(* optimality: ANY horizon, any A_t, B_t, c1_t (time-varying too), PD Q_t, any p_t, any nominal input
+   trajectory, ANY time counter (any earlier calls): the returned trajectory is the trajectory of
+   the returned inputs, the cost is its cost, and no input sequence has a lower cost *)
 Theorem C14_lqr_optimal_scalar_partial : forall (s : ssys (F:=R)) prob x0 un tm xs us c tm',
-  Forall pd prob -> coef_ok s tm (length prob) ->
+  Forall pd prob -> sys_ok s ->
   lqr_solve s 1 prob x0 un tm = Some (xs, us, c, tm') ->
   length us = length prob /\ xs = x0 :: traj s 0 x0 us /\ c = Jcost s 0 x0 prob us /\
   forall us', length us' = length prob -> (c <= Jcost s 0 x0 prob us')%R.
 Proof. exact lqr_optimal_scalar. Qed.
-(* ... in particular on a fresh LTV object and on an LTI object whatever its time counter *)
-Theorem C14_lqr_optimal_fresh_ltv_partial : forall (s : ssys (F:=R)) prob x0 un xs us c tm',
-  sk s = KLTV -> Forall pd prob -> lqr_solve s 1 prob x0 un 0%Z = Some (xs, us, c, tm') ->
-  c = Jcost s 0 x0 prob us /\ forall us', length us' = length prob -> (c <= Jcost s 0 x0 prob us')%R.
-Proof. exact lqr_optimal_fresh. Qed.
-Theorem C14_lqr_optimal_lti_any_history_partial : forall (s : ssys (F:=R)) prob x0 un tm xs us c tm',
-  (forall t, scoef s t = scoef s 0%Z) -> Forall pd prob ->
+(* independence of the nominal input trajectory supplied and of the counters (for the optimal cost) *)
+Theorem C14_lqr_nominal_independent_partial :
+  forall (s : ssys (F:=R)) prob x0 un un' tm tm0 xs us c tm' xs2 us2 c2 tm2,
+  Forall pd prob -> sys_ok s ->
   lqr_solve s 1 prob x0 un tm = Some (xs, us, c, tm') ->
-  c = Jcost s 0 x0 prob us /\ forall us', length us' = length prob -> (c <= Jcost s 0 x0 prob us')%R.
-Proof. exact lqr_optimal_lti. Qed.
-(* independence of the nominal input trajectory supplied (stated for the optimal cost) *)
-Theorem C14_lqr_nominal_independent_partial : forall (s : ssys (F:=R)) prob x0 un un' tm xs us c tm' xs2 us2 c2 tm2,
-  Forall pd prob -> coef_ok s tm (length prob) ->
-  lqr_solve s 1 prob x0 un tm = Some (xs, us, c, tm') ->
-  lqr_solve s 1 prob x0 un' tm = Some (xs2, us2, c2, tm2) -> c = c2.
+  lqr_solve s 1 prob x0 un' tm0 = Some (xs2, us2, c2, tm2) -> c = c2.
 Proof. exact lqr_cost_nominal_independent. Qed.
 
-(* history clause.  On a time-invariant system the result does not depend on the time counter,
-   i.e. on earlier calls (any number type, any dt, PD or not) ... *)
-Theorem C14_lqr_history_independent_lti : forall (F : Type) (NF : Num F) (s : ssys (F:=F)) dt prob x0 un tm tm',
-  (forall t, scoef s t = scoef s 0%Z) ->
-  drop4 (lqr_solve s dt prob x0 un tm) = drop4 (lqr_solve s dt prob x0 un tm').
-Proof. intros F NF. exact lqr_history_independent_const. Qed.
-(* ... on a time-varying system it is REFUTED on the faithful model: two consecutive solves of the
-   same problem on one LTV object (witness Proofs/LQR.v: A_t = (1,0,2)[t mod 3], B = 1, Q = I, p = 0,
-   x_init = 1, T = 2): the first returns the optimum 3/4, the second - rolled out from the stale
-   time 2 - returns inputs of cost 1.  Known finding, replayed by the check on every run. *)
-Definition lqr_history_independent : Prop :=
-  forall (s : ssys (F:=Q)) prob x0 un tm tm',
-    drop4 (lqr_solve s 1 prob x0 un tm) = drop4 (lqr_solve s 1 prob x0 un tm').
-Theorem C14_lqr_history_independent_refuted : ~ lqr_history_independent.
-Proof.
-  intros H. specialize (H w_sys w_prob 1%Q None 0%Z 2%Z). rewrite w_first, w_second in H. discriminate H.
-Qed.
-Theorem C14_lqr_second_solve_suboptimal_refuted :
-  exists (s : ssys (F:=Q)) prob x0 xs1 us1 c1 t1 xs2 us2 c2 t2,
-    sk s = KLTV /\
-    lqr_solve s 1 prob x0 None 0%Z = Some (xs1, us1, c1, t1) /\
-    lqr_solve s 1 prob x0 None t1 = Some (xs2, us2, c2, t2) /\ (c1 < c2)%Q.
-Proof.
-  exists w_sys, w_prob, 1%Q. do 8 eexists. split; [reflexivity|]. split; [exact w_first|]. split; [exact w_second|].
-  reflexivity.
-Qed.
-(* horizon 1 at a stale time: the returned final state is computed with A_2 instead of A_0 *)
-Theorem C14_lqr_stale_final_state_refuted :
-  exists (s : ssys (F:=Q)) prob x0 xs1 us1 c1 t1 xs2 us2 c2 t2,
-    lqr_solve s 1 prob x0 None 0%Z = Some (xs1, us1, c1, t1) /\
-    lqr_solve s 1 prob x0 None 2%Z = Some (xs2, us2, c2, t2) /\ xs1 <> xs2.
-Proof.
-  exists w_sys, (firstn 1 w_prob), 1%Q. do 8 eexists. split; [exact w_T1_fresh|]. split; [exact w_T1_stale|]. discriminate.
-Qed.
+(* history clause: the whole result of a solve (states, inputs, cost, time afterwards, raising or
+   not) does not depend on the time counter it finds - for every system (time-varying too), number
+   type, dt, cost; hence not on any sequence of earlier solves on the same object *)
+Theorem C14_lqr_history_independent : forall (F : Type) (NF : Num F) (s : ssys (F:=F)) dt prob x0 un tm tm',
+  lqr_solve s dt prob x0 un tm = lqr_solve s dt prob x0 un tm'.
+Proof. intros F NF. exact lqr_history_independent. Qed.
+Theorem C14_lqr_after_any_history : forall (F : Type) (NF : Num F) (s : ssys (F:=F)) h dt prob x0 un tm,
+  lqr_solve s dt prob x0 un (after_history s tm h) = lqr_solve s dt prob x0 un 0%Z.
+Proof. intros F NF. exact lqr_after_any_history. Qed.
 
-(* MPC on a time-invariant linear system returns the LQR optimum (whatever the stepper does) *)
+(* MPC on a linear system - time-invariant or time-varying - returns the LQR optimum, whatever the
+   stepper does, whatever the counter *)
 Theorem C14_mpc_linear_is_lqr_scalar_partial : forall (s : ssys (F:=R)) prob x0 cfg st u0 tm xs us c tm' st' n,
-  (forall t, scoef s t = scoef s 0%Z) -> Forall pd prob ->
+  sys_ok s -> Forall pd prob ->
   mpc_forward s 1 prob x0 cfg st u0 tm = Some (xs, us, c, tm', st', n) ->
   length us = length prob /\ xs = x0 :: traj s 0 x0 us /\ c = Jcost s 0 x0 prob us /\
   (forall us', length us' = length prob -> (c <= Jcost s 0 x0 prob us')%R) /\
   (forall un tm0 xs0 us0 c0 tm0', lqr_solve s 1 prob x0 un tm0 = Some (xs0, us0, c0, tm0') -> c = c0).
 Proof. exact mpc_linear_is_lqr_scalar. Qed.
-(* ... on a time-varying linear system it is REFUTED even on a fresh object: every solve of the loop
-   after the first, and the final one, start at the stale time (same witness, default stepper):
-   LQR returns 3/4, MPC returns 1.  Known finding. *)
-Theorem C14_mpc_linear_is_lqr_ltv_refuted :
+
+(* no shape of the property's range makes LQR raise (model of the shape handling of A, B) *)
+Theorem C14_lqr_returns : forall nb ns T, lqr_shape_raises nb ns T = false.
+Proof. exact shape_never_raises. Qed.
+
+(* ---------------------------------------------------------------- before the fix commits
+   (recorded as `fixed:` in known_findings.txt).  Witness (Proofs/LQR.v): LTV object
+   A_t = (1,0,2)[t mod 3], B = 1, Q = I, p = 0, x_init = 1, T = 2. *)
+(* Proofs/LQR.v:  lqr_history_independent_old := forall (s : ssys (F:=Q)) prob x0 un tm tm',
+     drop4 (lqr_solve_old s 1 prob x0 un tm) = drop4 (lqr_solve_old s 1 prob x0 un tm')  *)
+Theorem C14_lqr_history_independent_old_refuted : ~ lqr_history_independent_old.
+Proof. exact history_independent_old_refuted. Qed.
+(* two consecutive solves on one object: optimum 3/4, then - rolled out from the stale time 2 - cost 1 *)
+Theorem C14_lqr_second_solve_suboptimal_old_refuted :
+  exists (s : ssys (F:=Q)) prob x0 xs1 us1 c1 t1 xs2 us2 c2 t2,
+    sk s = KLTV /\
+    lqr_solve_old s 1 prob x0 None 0%Z = Some (xs1, us1, c1, t1) /\
+    lqr_solve_old s 1 prob x0 None t1 = Some (xs2, us2, c2, t2) /\ (c1 < c2)%Q.
+Proof. exact second_solve_suboptimal_old. Qed.
+(* horizon 1 at a stale time: the returned final state was computed with A_2 instead of A_0 *)
+Theorem C14_lqr_stale_final_state_old_refuted :
+  exists (s : ssys (F:=Q)) prob x0 xs1 us1 c1 t1 xs2 us2 c2 t2,
+    lqr_solve_old s 1 prob x0 None 0%Z = Some (xs1, us1, c1, t1) /\
+    lqr_solve_old s 1 prob x0 None 2%Z = Some (xs2, us2, c2, t2) /\ xs1 <> xs2.
+Proof. exact stale_final_state_old. Qed.
+(* MPC on the fresh LTV object (default stepper): LQR returned 3/4, MPC returned 1 *)
+Theorem C14_mpc_linear_is_lqr_ltv_old_refuted :
   exists (s : ssys (F:=Q)) prob x0 cfg xs1 us1 c1 t1 xs2 us2 c2 t2 st n,
     sk s = KLTV /\
-    lqr_solve s 1 prob x0 None 0%Z = Some (xs1, us1, c1, t1) /\
-    mpc_forward s 1 prob x0 cfg rtb_init None 0%Z = Some (xs2, us2, c2, t2, st, n) /\ (c1 < c2)%Q.
-Proof.
-  destruct w_mpc as [st [n H]].
-  exists w_sys, w_prob, 1%Q, w_cfg. do 8 eexists. exists st, n.
-  split; [reflexivity|]. split; [exact w_first|]. split; [exact H|]. reflexivity.
-Qed.
-
-(* "LQR returns ..." for every batch size 1..3, dimensions 1..6, horizon 1..20: REFUTED on the
-   faithful model of the shapes (`system.A.squeeze(-2)`): state dimension 1 with a batch and a
-   horizon >= 2 raises.  Known finding. *)
-Theorem C14_lqr_returns_refuted :
-  exists nb ns T, (1 <= nb <= 3)%nat /\ (1 <= ns <= 6)%nat /\ (1 <= T <= 20)%nat /\ lqr_shape_raises nb ns T = true.
-Proof. exists 2%nat, 1%nat, 2%nat. repeat split; auto with arith. Qed.
+    lqr_solve_old s 1 prob x0 None 0%Z = Some (xs1, us1, c1, t1) /\
+    mpc_forward_old s 1 prob x0 cfg rtb_init None 0%Z = Some (xs2, us2, c2, t2, st, n) /\ (c1 < c2)%Q.
+Proof. exact mpc_ltv_suboptimal_old. Qed.
+(* state dimension 1 with a batch and a horizon >= 2 raised (`system.A.squeeze(-2)`) *)
+Theorem C14_lqr_returns_old_refuted :
+  exists nb ns T, (1 <= nb <= 3)%nat /\ (1 <= ns <= 6)%nat /\ (1 <= T <= 20)%nat /\ lqr_shape_raises_old nb ns T = true.
+Proof. exact shape_raises_old_witness. Qed.
 
 (* hypotheses are satisfiable *)
 Theorem C14_hypotheses_satisfiable :
   pd {| qxx := 1%R; qxu := (1 / 2)%R; qux := (1 / 2)%R; quu := 2%R; px := 3%R; pu := (-1)%R |} /\
-  coef_ok {| sk := KLTI; scoef := fun _ => ((3 / 2)%R, 1%R, Some (1 / 4)%R) |} 7%Z 5.
-Proof. split; [exact pd_example|exact coef_ok_example]. Qed.
+  sys_ok {| sk := KLTI; scoef := fun _ => ((3 / 2)%R, 1%R, Some (1 / 4)%R) |} /\
+  sys_ok {| sk := KLTV; scoef := fun t => (IZR t, 1%R, None) |}.
+Proof. split; [exact pd_example|split; [exact sys_ok_example_lti|exact sys_ok_example_ltv]]. Qed.
 
 Print Assumptions C14_lqr_feasible. Print Assumptions C14_lqr_time_bookkeeping.
 Print Assumptions C14_lqr_cost_is_sum. Print Assumptions C14_lqr_optimal_scalar_partial.
-Print Assumptions C14_lqr_optimal_fresh_ltv_partial. Print Assumptions C14_lqr_optimal_lti_any_history_partial.
-Print Assumptions C14_lqr_nominal_independent_partial. Print Assumptions C14_lqr_history_independent_lti.
-Print Assumptions C14_lqr_history_independent_refuted. Print Assumptions C14_lqr_second_solve_suboptimal_refuted.
-Print Assumptions C14_lqr_stale_final_state_refuted. Print Assumptions C14_mpc_linear_is_lqr_scalar_partial.
-Print Assumptions C14_mpc_linear_is_lqr_ltv_refuted. Print Assumptions C14_lqr_returns_refuted.
+Print Assumptions C14_lqr_nominal_independent_partial. Print Assumptions C14_lqr_history_independent.
+Print Assumptions C14_lqr_after_any_history. Print Assumptions C14_mpc_linear_is_lqr_scalar_partial.
+Print Assumptions C14_lqr_returns. Print Assumptions C14_lqr_history_independent_old_refuted.
+Print Assumptions C14_lqr_second_solve_suboptimal_old_refuted. Print Assumptions C14_lqr_stale_final_state_old_refuted.
+Print Assumptions C14_mpc_linear_is_lqr_ltv_old_refuted. Print Assumptions C14_lqr_returns_old_refuted.
 Print Assumptions C14_hypotheses_satisfiable.
